@@ -59,6 +59,7 @@ ALPHABET = [
     ["arrange", [Cn("k")]],
     ["slice_head", 2, 0],
     ["filter", [["gt", Cn("k"), lit(1)]]],
+    ["filter", [["gt", Cn("k"), lit(99)]]],  # no row left: the exported frame still has the right columns
 ]
 
 
